@@ -5,6 +5,7 @@
    77caaad; Gen.Category is regenerated from the current MessageCategory. *)
 From Coq Require Import ZArith List Bool Arith Permutation String.
 Require Import Model.Base Gen.Category Model.Runner Spec.RunnerSpec Proofs.RunnerProofs Proofs.RunnerC03.
+Require Model.ReportLabels Proofs.ReportLabelsProofs.
 Import ListNotations.
 
 (* every finding produced for a definition of a user file (and every parser
@@ -32,13 +33,6 @@ Theorem C03_displayed_iff_kept : forall p o order r,
   (In r (res_shown (run_keys p o order)) <-> In r (produced p) /\ keep o (p_user p) r).
 Proof. exact displayed_iff_kept. Qed.
 Print Assumptions C03_displayed_iff_kept.
-
-Theorem C03_exit_zero_iff_nothing_displayed : forall p o order,
-  wf_project p -> analysis_order p order ->
-  (res_exit (run_keys p o order) = 0%Z <-> res_shown (run_keys p o order) = []) /\
-  (res_exit (run_keys p o order) = 0%Z \/ res_exit (run_keys p o order) = 1%Z).
-Proof. exact exit_zero_iff_nothing_displayed. Qed.
-Print Assumptions C03_exit_zero_iff_nothing_displayed.
 
 Theorem C03_summary_counts_displayed : forall p o order,
   wf_project p -> analysis_order p order ->
@@ -104,15 +98,11 @@ Theorem C03_from_str_table_covers : forall s,
 Proof. exact from_str_table_covers. Qed.
 Print Assumptions C03_from_str_table_covers.
 
-Theorem C03_verbose_invariant : forall p o order,
-  let o' := mkOpts (o_level o) (o_allow o) (negb (o_verbose o)) (o_sarif o) in
-  res_shown (run_keys p o' order) = res_shown (run_keys p o order) /\
-  res_exit (run_keys p o' order) = res_exit (run_keys p o order) /\
-  res_summary (run_keys p o' order) = res_summary (run_keys p o order) /\
-  res_sarif (run_keys p o' order) = res_sarif (run_keys p o order) /\
-  res_log (run_keys p o' order) = res_log (run_keys p o order).
-Proof. exact verbose_invariant. Qed.
-Print Assumptions C03_verbose_invariant.
+(* (third audit) C03_verbose_invariant was removed from the obligations: Model.Runner never reads [o_verbose], so the
+   statement was [reflexivity] (the lemma stays in Proofs.RunnerProofs).  That --verbose changes nothing but the codes shown
+   in the headers is OBSERVED: every project is run with and without it and compared with the same model output.
+   C03_exit_zero_iff_nothing_displayed was removed too: it is the second and third conjunct of C03_exit_status_all_runs
+   below, which needs no hypothesis. *)
 
 (* ---- added after the outside review (design.d/AUDIT.md, section C03) ---- *)
 
@@ -187,6 +177,43 @@ Definition ex_U : def := mkDef KTemplate 2 0 [] None [ex_unused] [1%Z].
 Definition ex_L : def := mkDef KTemplate 3 1 [] None [ex_included] [].
 Definition ex_p : project := mkProject [ex_missing; ex_included] [ex_T; ex_U; ex_L] [0%Z].
 Definition ex_o : opts := mkOpts Warning [] true true.
+
+(* ---- third audit: WHERE a finding is located --------------------------------
+   Model.Runner carries [r_pfiles] (`Report::primary_file_ids()`); Model.ReportLabels mirrors the only three writers of a
+   report's labels (Report::new, add_primary, add_secondary).  For every sequence of add_primary / add_secondary calls:
+   primary_file_ids is the list of the file ids of the primary labels (secondary labels never contribute) ... *)
+Theorem C03_primary_file_ids_are_the_primary_label_files : forall ops,
+  ReportLabels.lr_pfiles (ReportLabels.build ops) = map ReportLabels.l_file (ReportLabels.lr_primary (ReportLabels.build ops)) /\
+  ReportLabels.lr_primary (ReportLabels.build ops) = ReportLabelsProofs.primary_ops ops /\
+  ReportLabels.lr_secondary (ReportLabels.build ops) = ReportLabelsProofs.secondary_ops ops.
+Proof. exact ReportLabelsProofs.pfiles_are_primary_label_files. Qed.
+Print Assumptions C03_primary_file_ids_are_the_primary_label_files.
+
+(* ... the file filter of cli/src/main.rs (the same function in Model.Runner) drops such a report iff it HAS primary
+   labels and ALL of them lie in files that were only included ... *)
+Theorem C03_file_filter_reads_the_primary_labels : forall user ops,
+  (forall r, Runner.filter_by_file r user = ReportLabels.filter_by_file user (r_pfiles r)) /\
+  (ReportLabels.filter_by_file user (ReportLabels.lr_pfiles (ReportLabels.build ops)) = false <->
+   ReportLabels.lr_primary (ReportLabels.build ops) <> [] /\
+   forall l, In l (ReportLabels.lr_primary (ReportLabels.build ops)) -> ~ In (ReportLabels.l_file l) user).
+Proof.
+  exact (fun user ops => conj (fun r => ReportLabelsProofs.runner_filter_is_filter_by_file r user)
+                              (ReportLabelsProofs.dropped_iff_all_primary_labels_included_only user ops)).
+Qed.
+Print Assumptions C03_file_filter_reads_the_primary_labels.
+
+(* ... and the clause `not located solely in a file that was only included` of [keep] (Spec.RunnerSpec, stated on
+   r_pfiles) is that statement about the labels for every report whose r_pfiles a producer built this way.  The
+   hypothesis [r_pfiles r = lr_pfiles (build ops)] is evaluated on every report of every explored project: the
+   `primary_file_ids()` of the real Report are compared with the file ids of its primary labels (lib/e2e.py
+   pfile_problems; coverage shapes_reached.primary_file_ids_compared_with_the_primary_labels). *)
+Theorem C03_located_only_in_included_on_labels : forall user ops (r : report),
+  r_pfiles r = ReportLabels.lr_pfiles (ReportLabels.build ops) ->
+  (located_only_in_included user r <->
+   ReportLabels.lr_primary (ReportLabels.build ops) <> [] /\
+   forall l, In l (ReportLabels.lr_primary (ReportLabels.build ops)) -> ~ In (ReportLabels.l_file l) user).
+Proof. exact ReportLabelsProofs.located_only_in_included_on_labels. Qed.
+Print Assumptions C03_located_only_in_included_on_labels.
 
 Example C03_witnesses :
   wf_project ex_p /\
